@@ -5,7 +5,7 @@ from . import evo
 PROP = "C14"
 LEVEL = "exploration"
 BUDGET = {"quick": 300, "thorough": 1700}
-NCASES = {"quick": 700, "thorough": 14000}
+NCASES = {"quick": 1500, "thorough": 20000}
 RULE = ("generated packages (3-9 memento/plain functions over 1-3 modules; constants, nested code, set/tuple constants, "
         "f-strings, positional and keyword-only defaults, globals of supported types, bare/module-attribute/alias/hidden "
         "call edges, recursion, explicit versions, salts) x histories of 1-8 edits (constants, defaults, globals rebind / "
